@@ -36,6 +36,17 @@ CLAIMS = {
                 ref="§3 C08"),
 }
 
+CLAIMS["C13"] = dict(level="model_checking", tech="TLA+ model of handler registration/dispatch (Handlers.tla) checked by TLC + lockstep pthread replay of its histories + TLC trace validation (subset construction)",
+    text="TLC explores all registration/spawn histories up to a bound with a violation probe after every prefix and checks the declarative "
+         "history property against the operational dispatch; the histories are replayed with real pthreads one call at a time and every "
+         "observation (handler identity, thread, code, previous-handler return values) is validated by TraceHandlers.tla",
+    ref="§3 C13", note="bounded histories (3 threads, <= 4/5 operations exhaustively, longer by seeded sampling); interleaving at call granularity; thread exit not modelled; trusted: TLC, pthreads, harness/hhand.c (records only)")
+CLAIMS["C14"] = dict(level="model_checking", tech="TLA+ tokenizer state machine (Tok.tla) checked by TLC + replay of every model session through strtok_s/wcstok_s + TLC trace validation against a reference position",
+    text="TLC explores every tokenising session over short strings, all dmax relations and changing delimiter sets and checks that the returned "
+         "tokens are exactly the maximal delimiter-free runs, in place, inside dmax; every session is replayed against the real functions in "
+         "guarded memory and each call is judged by TraceTok.tla against the model's own reference position",
+    ref="§3 C14", note="strings of length <= 4/5 exhaustively, longer only by seeded random sessions; trusted: TLC, harness/htok.c (records only)")
+
 NOT_YET = {
 }
 
